@@ -367,12 +367,39 @@ fn judge_case(c: &SCase) -> Verdict {
         4 => (None, Some(t + 1)),
         _ => (None, None),
     };
+    if c.scenario == 6 && n_chars < 2 {
+        return Verdict::discard("leader-again-scenario-needs-two-characters");
+    }
+    // scenario 6: the leader is pressed again before this step (documented: ignored in
+    // visible-backspaced and hidden-delay-type, resets the typed keys in hidden-suppressed)
+    let leader_again_at: Option<usize> = if c.scenario == 6 { Some(chars[1 + pick(c.cut, n_chars - 1)]) } else { None };
     let mut last_press_time: Option<u64> = None;
     let mut down: Vec<u16> = vec![];
     let mut typed_chars = 0usize;
-    for (i, st) in steps.iter().enumerate() {
+    let mut restarted = false;
+    let mut i_next = 0usize;
+    while i_next < steps.len() {
+        let i = i_next;
+        i_next += 1;
+        let st = &steps[i];
         if Some(i) == cut_at {
             break;
+        }
+        if Some(i) == leader_again_at && !restarted {
+            if !down.is_empty() {
+                return Verdict::discard("leader-again-needs-no-held-key");
+            }
+            sim.press(code_of("l"));
+            sim.tick_n(1);
+            sim.release(code_of("l"));
+            sim.tick_n(1);
+            restarted = true;
+            if c.mode % 3 == 1 {
+                // hidden-suppressed: the sequence starts over
+                i_next = 0;
+                typed_chars = 0;
+                continue;
+            }
         }
         if let (Some(p), true) = (pause_before_last, i == last_char_step) {
             // make the distance between the previous key press and this one exactly p ms
@@ -485,7 +512,7 @@ fn judge_case(c: &SCase) -> Verdict {
     if matches!(c.scenario, 2 | 3 | 4) && (n_chars < 2 || steps.iter().take(last_char_step).all(|s| matches!(s, Step::Up(_)))) {
         return Verdict::discard("pause-scenario-needs-two-presses");
     }
-    let scen = ["full", "prefix-then-other-key-then-full-without-leader", "pause T-1", "pause T", "pause T+1", "full, then leader + prefix + other key"][c.scenario as usize % 6];
+    let scen = ["full", "prefix-then-other-key-then-full-without-leader", "pause T-1", "pause T", "pause T+1", "full, then leader + prefix + other key", "leader pressed again after a proper prefix"][c.scenario as usize % 7];
     let describe = || format!("{text}typed sequence #{which} {:?} ({scen}, {} hand, mode {}): output {}", seq.iter().map(item_text).collect::<Vec<_>>(), if c.right_hand { "right" } else { "left" }, c.mode, fmt_outs(&outs));
     // F35: an O- group followed by further items cannot be completed when another
     // sequence starts with the same keys, in the typed order, as plain (non-overlapping)
@@ -596,7 +623,8 @@ fn judge_case(c: &SCase) -> Verdict {
             }
         }
     }
-    v.classes.push(match c.scenario % 6 {
+    v.classes.push(match c.scenario % 7 {
+        6 => "leader-again-mid-sequence",
         0 => "typed-full",
         1 => "typed-prefix-then-other",
         2 => "pause-T-1",
@@ -645,7 +673,7 @@ impl TypedProp for C12 {
     fn info(&self) -> PropInfo {
         PropInfo {
             level: "exploration",
-            rule: "tables: 1-5 defseq sequences of 1-4 items over keys a-d: plain keys, chorded keys with every modifier prefix (S- C- A- M- RA- RS- RC- RM-), chorded groups, O-(..) groups of 2-4 keys; input modes visible-backspaced / hidden-suppressed / hidden-delay-type, sequence-always-on, timeouts {10,50}. Oracle (i): the harness encodes every sequence and every O- permutation itself (documented bit layout) and decides prefix-freedom: the parser must accept iff prefix-free, and the compiled table must answer HasValue(the right virtual key) for every encoding and InTrie for every proper prefix. Oracle (ii): for an accepted table one sequence is typed physically (every O- order, left- or right-hand modifier): fully => its virtual key exactly once, no other, sequence mode left, nothing down; hidden modes press no typed key, visible-backspaced sends one backspace per typed character; a proper prefix followed by a key in no sequence, then the whole sequence again without the leader => no virtual key; the full sequence, then the leader again with a proper prefix and a key in no sequence => the virtual key exactly once, and in hidden-delay-type the failed session types exactly its own keys; a pause of T-1 ms between two key presses still completes, T and T+1 do not. Non-trivial: >= 2 sequences share a first key, or an O- group occurs. Distinct: hash of the case.",
+            rule: "tables: 1-5 defseq sequences of 1-4 items over keys a-d: plain keys, chorded keys with every modifier prefix (S- C- A- M- RA- RS- RC- RM-), chorded groups, O-(..) groups of 2-4 keys; input modes visible-backspaced / hidden-suppressed / hidden-delay-type, sequence-always-on, timeouts {10,50}. Oracle (i): the harness encodes every sequence and every O- permutation itself (documented bit layout) and decides prefix-freedom: the parser must accept iff prefix-free, and the compiled table must answer HasValue(the right virtual key) for every encoding and InTrie for every proper prefix. Oracle (ii): for an accepted table one sequence is typed physically (every O- order, left- or right-hand modifier): fully => its virtual key exactly once, no other, sequence mode left, nothing down; hidden modes press no typed key, visible-backspaced sends one backspace per typed character; a proper prefix followed by a key in no sequence, then the whole sequence again without the leader => no virtual key; the full sequence, then the leader again with a proper prefix and a key in no sequence => the virtual key exactly once, and in hidden-delay-type the failed session types exactly its own keys; the leader pressed again after a proper prefix (no key held) => ignored in visible-backspaced and hidden-delay-type (the rest completes the sequence), a restart in hidden-suppressed (the whole sequence typed again completes it): the virtual key exactly once; a pause of T-1 ms between two key presses still completes, T and T+1 do not. Non-trivial: >= 2 sequences share a first key, or an O- group occurs. Distinct: hash of the case.",
             assumptions: vec!["pinned timeout convention: a key press fewer than T ms after the previous one continues the sequence".into()],
             extra: BTreeMap::new(),
         }
@@ -659,7 +687,7 @@ impl TypedProp for C12 {
             exhaustive: false,
             distinct_by_construction: false,
             required_classes: vec![
-                "accepted", "rejected-conflict", "typed-full", "typed-prefix-then-other", "pause-T-1", "pause-T", "pause-T+1", "two-sessions", "overlap-group",
+                "accepted", "rejected-conflict", "typed-full", "typed-prefix-then-other", "pause-T-1", "pause-T", "pause-T+1", "two-sessions", "leader-again-mid-sequence", "overlap-group",
                 "right-hand-modifier", "right-hand-prefix-in-table",
             ],
             hang_secs: 60,
@@ -677,7 +705,7 @@ impl TypedProp for C12 {
             any::<u16>(),
             any::<u16>(),
             any::<bool>(),
-            0u8..6,
+            0u8..7,
             any::<u16>(),
         )
             .prop_map(|(seqs, mode, timeout, always_on, which, perm, right_hand, scenario, cut)| SCase {
